@@ -448,6 +448,17 @@ def targeted():
                     tr=[dict(tt="T", o="I", d="R", mag=1)]), dict(op="eval", e=e), dict(op="eval", e="ode"), dict(op="eval", e=e),
                     dict(op="set", form="dict", items=[[0, 1.0]]), dict(op="eval", e=e), dict(op="eval", e="ode")]
         out.append(h)
+    # what one generator left behind (a symbolic Jacobian, gradient, ...) must not be trusted by another one after a change:
+    # [evaluate a; add a NON-LINEAR process; evaluate ode (revives the master canary); evaluate b] for every ordered pair
+    for a in EVALS11:
+        for b in EVALS11:
+            if a == b or "ode" in (a, b):
+                continue
+            h = json.loads(json.dumps(out[0]))
+            h["ops"] = [h["ops"][0], dict(op="eval", e=a),
+                        dict(op="mut", how="add_event_T", rate=dict(k="mass", p="p1", X="R", Y="S"), tr=[dict(tt="T", o="R", d="S", mag=1)]),
+                        dict(op="eval", e="ode"), dict(op="eval", e=b)]
+            out.append(h)
     # an Event without member transitions (a pure counter: it has a rate, moves nothing), and a list assignment that is refused
     # at its second element after the first has been entered
     for extra in (dict(op="mut", how="add_event_E", rate=dict(k="lin", p="p1", X="R", Y="S"), tr=[]),
